@@ -167,7 +167,7 @@ class Expression:
     }
 
     unary_operators: ClassVar[dict[str, Callable[[int], int]]] = {
-        "u": lambda a: -a,
+        "-u": lambda a: -a,
         "~": lambda a: ~a,
     }
 
@@ -182,7 +182,7 @@ class Expression:
         "*": 5,
         "/": 5,
         "%": 5,
-        "u": 6,
+        "-u": 6,
         "~": 6,
         "sizeof": 6,
     }
@@ -236,10 +236,10 @@ class Expression:
         for i in range(len(self.tokens)):
             if self.tokens[i] == "-":
                 if i == 0:
-                    self.tokens[i] = "u"
+                    self.tokens[i] = "-u"
                     continue
-                if self.tokens[i - 1] in operators or self.tokens[i - 1] == "u" or self.tokens[i - 1] == "(":
-                    self.tokens[i] = "u"
+                if self.tokens[i - 1] in operators or self.tokens[i - 1] == "-u" or self.tokens[i - 1] == "(":
+                    self.tokens[i] = "-u"
                     continue
 
         i = 0
